@@ -2,7 +2,6 @@ package main
 
 import (
 	"fmt"
-	"go/types"
 	"sort"
 	"strings"
 
@@ -160,7 +159,7 @@ func checkThrottlePassThrough(w *World, r *Report, runs *throttleRuns) {
 	e := newTermEnv(w)
 	e.useCtor(c.T, c.Ctor)
 	fieldsFromStart := map[string]string{} // field name -> which Start parameter it remembers
-	startFn := w.Prog.LookupMethod(types.NewPointer(c.T), c.Pkg.Pkg, "StartRecording")
+	startFn := findMethod(w.Prog, c.T, "StartRecording")
 	if startFn == nil {
 		r.Unknown("X4", "StartRecording", "-", "method not found")
 		return
